@@ -295,6 +295,9 @@ func genSnapshot(r *rand.Rand, n, k int, named bool) []*stack.Goroutine {
 	for i := range bases {
 		bases[i] = g.signature()
 	}
+	if n == 0 {
+		return []*stack.Goroutine{}
+	}
 	gs := make([]*stack.Goroutine, n)
 	ids := r.Perm(n * 3)
 	for i := range gs {
